@@ -15,10 +15,11 @@ echo "== worktree diff vs patch"; git diff --stat | tail -3
 echo "== suite with the change"; CARGO_TARGET_DIR=$WT_TARGET cargo test --offline -p trippy-core -p trippy-packet -p trippy-tui -p trippy-dns 2>&1 | grep -E "^test result|FAILED|^error" | tee $out/suite_with_change.txt | awk '{print}' | sort | uniq -c | head
 echo "== demo with the change (expect failure)"; (CARGO_TARGET_DIR=$WT_TARGET sh seeded-out/run_demo.sh > $out/demo_with_change.txt 2>&1; echo "exit $?" | tee -a $out/demo_with_change.txt)
 grep -E "^test result|panicked|FAILED|assert" $out/demo_with_change.txt | head -5
-git diff > /tmp/w/seedpatch.$$.diff; git apply -R /tmp/w/seedpatch.$$.diff
+# back to the unchanged tree (tracked files restored, demo leftovers removed), run the demo, restore the change
+git checkout -- . ; git clean -fdq -e seeded-out -e target
 echo "== demo without the change (expect pass)"; (CARGO_TARGET_DIR=$WT_TARGET sh seeded-out/run_demo.sh > $out/demo_without_change.txt 2>&1; echo "exit $?" | tee -a $out/demo_without_change.txt)
 grep -E "^test result|panicked|FAILED" $out/demo_without_change.txt | head -5
-git apply /tmp/w/seedpatch.$$.diff; rm -f /tmp/w/seedpatch.$$.diff
+git checkout -- . ; git clean -fdq -e seeded-out -e target; git apply seeded-out/patch.diff
 echo "== checks against /repo with the change applied"
 cd /repo && git apply $out/patch.diff || { echo "PATCH DOES NOT APPLY to /repo"; exit 3; }
 for c in $prop "$@"; do
